@@ -79,7 +79,12 @@ Definition atoms_clause {A} (c : clause A) : list A :=
 Definition atoms_stmt (s : stmt) : list atom :=
   match s with SClause c => atoms_clause c | SQuery a => [a] | SEvid a _ => [a] end.
 Definition consts_stmt (s : stmt) : list N := flat_map consts_atom (atoms_stmt s).
-Definition vars_stmt (s : stmt) : list nat := nodup Nat.eq_dec (flat_map vars_atom (atoms_stmt s)).
+(* the variables of a statement are 0 .. n-1 where n-1 is the largest index used
+   (wf_stmt checks that every index below n really occurs, so no spurious
+   instances are created); this list does not depend on the order of literals *)
+Definition nvars_stmt (s : stmt) : nat :=
+  fold_right Nat.max 0%nat (map S (flat_map vars_atom (atoms_stmt s))).
+Definition vars_stmt (s : stmt) : list nat := seq 0%nat (nvars_stmt s).
 
 (* the Herbrand domain: the constants of the program, without repetition *)
 Definition domain (P : program) : list N := nodup N.eq_dec (flat_map consts_stmt P).
@@ -132,7 +137,10 @@ Definition pos_vars (b : list (lit atom)) : list nat :=
 Definition range_restricted (c : clause atom) : bool :=
   forallb (fun v => existsb (Nat.eqb v) (pos_vars (clause_body c)))
           (flat_map vars_atom (atoms_clause c)).
+Definition vars_contiguous (s : stmt) : bool :=
+  forallb (fun v => existsb (Nat.eqb v) (flat_map vars_atom (atoms_stmt s))) (vars_stmt s).
 Definition wf_stmt (s : stmt) : bool :=
+  vars_contiguous s &&
   match s with
   | SClause c => wf_clause c && range_restricted c
   | SQuery _ => true
